@@ -2393,7 +2393,10 @@ bool NifFile::GetNodeTransformToGlobal(const std::string& nodeName, MatTransform
 
 		MatTransform xform = node->GetTransformToParent();
 		NiNode* parent = GetParentNode(node);
-		while (parent) {
+
+		// Stop when a node shows up twice in the parent chain (malformed files with cyclic child refs)
+		std::set<NiNode*> visitedParents{node};
+		while (parent && visitedParents.insert(parent).second) {
 			xform = parent->GetTransformToParent().ComposeTransforms(xform);
 			parent = GetParentNode(parent);
 		}
